@@ -259,6 +259,33 @@ def read_buf_rules(ctx, rep, impl):
                   "a suspension point lies between the transport read completing and advance_mut: cancelling there loses the bytes", b.loc(at["line"]))
 
 
+def _param_mutators(ctx, fn, argno, prefix, depth):
+    """callees outside MUTATORS_ALLOWED to which parameter `argno` of the helper fn is handed mutably (None: not decidable)"""
+    from mirq import strip_refs
+    hb = ctx.mir.body(fn)
+    if hb is None or depth > 2:
+        return None
+    bad = []
+    for bb, t in hb.calls():
+        for ai, a in enumerate(t["args"]):
+            o = strip_refs(hb.origin(a))
+            while o[0] == "deref":
+                o = strip_refs(o[1])
+            if o != ("arg", argno) or "&mut" not in t["argtys"][ai]:
+                continue
+            d = callee(t)[0]
+            if d in MUTATORS_ALLOWED:
+                continue
+            if d and d.startswith(prefix) and ctx.mir.body(d) is not None:
+                sub = _param_mutators(ctx, d, ai + 1, prefix, depth + 1)
+                if sub is None:
+                    return None
+                bad.extend(sub)
+            else:
+                bad.append(d)
+    return bad
+
+
 def mutators(ctx, rep, impl):
     """R5.4: who may touch self.buffer, over every method of the Framed impl"""
     prefix = net.IMPLS[impl]["framed"] + "::"
@@ -282,6 +309,11 @@ def mutators(ctx, rep, impl):
                 if mutable:
                     ok = d in MUTATORS_ALLOWED
                     why = "self.buffer is handed mutably to %s; only Codec::decode, chunk_mut and advance_mut may change the receive buffer" % d
+                    if not ok and d and d.startswith(prefix) and ctx.mir.body(d) is not None:
+                        # a private helper of the same impl that receives the buffer: it may do with its parameter only what the impl may
+                        bad_in_helper = _param_mutators(ctx, d, ai + 1, prefix, 0)
+                        ok = bad_in_helper is not None and not bad_in_helper
+                        why = "self.buffer is handed mutably to the helper %s, which changes it through %s" % (d, bad_in_helper)
                 else:
                     ok = True
                     why = ""
